@@ -268,7 +268,7 @@ Lemma prefix_lower_app : forall sc t ns,
   length sc = length ns -> prefix_lower (sc ++ t) ns = true <-> map lower sc = ns.
 Proof.
   induction sc as [|c r IH]; intros t ns Hl; destruct ns as [|n ns']; try discriminate.
-  - cbn. tauto.
+  - cbn. destruct t; split; reflexivity.
   - cbn [app prefix_lower map]. cbn [length] in Hl. injection Hl as Hl. rewrite andb_true_iff, N.eqb_eq, (IH t ns' Hl).
     split; [intros [-> ->]; reflexivity | intros H; inversion H; auto].
 Qed.
@@ -333,3 +333,102 @@ Proof.
   destruct (has_uri_scheme (SL :: r) IPNS) eqn:E2; [apply Hno in E2; discriminate|].
   destruct (has_uri_scheme (SL :: r) IPLD) eqn:E3; [apply Hno in E3; discriminate|]. reflexivity.
 Qed.
+
+(** * IPNS names *)
+
+Lemma strip_prefix_app : forall p s, strip_prefix p (p ++ s) = Some s.
+Proof. induction p as [|a r IH]; intros s; [reflexivity|]. cbn [app strip_prefix]. now rewrite N.eqb_refl. Qed.
+
+Lemma strip_prefix_unrooted : forall s, rooted s = false -> strip_prefix NSPREFIX s = None.
+Proof.
+  intros s H. destruct s as [|c r]; [reflexivity|]. cbn [rooted] in H. unfold NSPREFIX. cbn [strip_prefix].
+  change 47 with SL. rewrite N.eqb_sym, H. reflexivity.
+Qed.
+
+Section NameRoundTrips.
+  (** The text codecs are abstract.  What is assumed of them (and checked on the real
+      codecs for every generated key by the correspondence run):
+      - decoding a CID text undoes encoding it in base36;
+      - a base36 CID text does not look like a base58 multihash ("Qm…" / "1…") and does
+        not start with '/';
+      - decoding a base58 multihash text undoes encoding it; such a text starts with
+        "Qm" or "1" (true for sha2-256 and identity multihashes, the ones peer IDs use)
+        and does not start with '/'. *)
+  Variable enc36 : cidv -> str.
+  Variable dec_cid : str -> option cidv.
+  Variable enc58 : str -> str.
+  Variable dec58 : str -> option str.
+  Variable mh_valid : str -> bool.
+  Hypothesis dec_enc36 : forall c, dec_cid (enc36 c) = Some c.
+  Hypothesis enc36_not_b58 : forall c, starts_b58 (enc36 c) = false.
+  Hypothesis enc36_unrooted : forall c, rooted (enc36 c) = false.
+  Hypothesis dec_enc58 : forall m, dec58 (enc58 m) = Some m.
+  Hypothesis enc58_b58 : forall m, starts_b58 (enc58 m) = true.
+  Hypothesis enc58_unrooted : forall m, rooted (enc58 m) = false.
+
+  Let from_string := name_from_string dec_cid dec58.
+  Let to_string := name_string enc36.
+
+  Lemma trim_ns_unrooted : forall s, rooted s = false -> trim_ns s = s.
+  Proof. intros s H. unfold trim_ns. now rewrite strip_prefix_unrooted. Qed.
+
+  Theorem name_roundtrips : forall n,
+    from_string (to_string n) = Some n /\
+    from_string (NSPREFIX ++ to_string n) = Some n /\
+    from_string (enc58 n) = Some n /\
+    from_string (NSPREFIX ++ enc58 n) = Some n /\
+    name_from_cid (name_cid n) = Some n /\
+    name_from_peer (name_peer n) = n /\
+    (mh_valid n = true -> name_from_routing_key mh_valid (routing_key n) = Some n).
+  Proof.
+    intros n. subst from_string to_string. unfold name_from_string, name_string.
+    assert (H36 : forall s, s = enc36 (name_cid n) ->
+              (if starts_b58 s then dec58 s
+               else match dec_cid s with
+                    | Some c => if c_codec c =? LIBP2P_KEY then Some (c_mh c) else None
+                    | None => None
+                    end) = Some n).
+    { intros s ->. rewrite enc36_not_b58, dec_enc36. reflexivity. }
+    assert (H58 : forall s, s = enc58 n ->
+              (if starts_b58 s then dec58 s
+               else match dec_cid s with
+                    | Some c => if c_codec c =? LIBP2P_KEY then Some (c_mh c) else None
+                    | None => None
+                    end) = Some n).
+    { intros s ->. now rewrite enc58_b58, dec_enc58. }
+    repeat split.
+    - rewrite trim_ns_unrooted by apply enc36_unrooted. now apply H36.
+    - unfold trim_ns. rewrite strip_prefix_app. now apply H36.
+    - rewrite trim_ns_unrooted by apply enc58_unrooted. now apply H58.
+    - unfold trim_ns. rewrite strip_prefix_app. now apply H58.
+    - intros Hv. unfold name_from_routing_key, routing_key. now rewrite strip_prefix_app, Hv.
+  Qed.
+
+  (** the forms determine the name *)
+  Theorem name_forms_injective : forall n1 n2,
+    (to_string n1 = to_string n2 -> n1 = n2) /\
+    (routing_key n1 = routing_key n2 -> n1 = n2) /\
+    (name_cid n1 = name_cid n2 -> n1 = n2) /\
+    (cid_bytes (name_cid n1) = cid_bytes (name_cid n2) -> n1 = n2).
+  Proof.
+    intros n1 n2. subst to_string. unfold name_string. repeat split; intros H.
+    - assert (H' : dec_cid (enc36 (name_cid n1)) = dec_cid (enc36 (name_cid n2))) by now rewrite H.
+      rewrite !dec_enc36 in H'. now inversion H'.
+    - unfold routing_key in H. now apply app_inv_head in H.
+    - now inversion H.
+    - now inversion H.
+  Qed.
+End NameRoundTrips.
+
+(** the hypotheses of the section are satisfiable: a toy codec *)
+Definition toy_enc36 (c : cidv) : str := 107 :: c_ver c :: c_codec c :: c_mh c.
+Definition toy_dec_cid (s : str) : option cidv :=
+  match s with 107 :: v :: co :: m => Some (mkCid v co m) | _ => None end.
+Definition toy_enc58 (m : str) : str := 49 :: m.
+Definition toy_dec58 (s : str) : option str := match s with 49 :: m => Some m | _ => None end.
+
+Lemma toy_codec_ok :
+  (forall c, toy_dec_cid (toy_enc36 c) = Some c) /\ (forall c, starts_b58 (toy_enc36 c) = false) /\
+  (forall c, rooted (toy_enc36 c) = false) /\ (forall m, toy_dec58 (toy_enc58 m) = Some m) /\
+  (forall m, starts_b58 (toy_enc58 m) = true) /\ (forall m, rooted (toy_enc58 m) = false).
+Proof. repeat split; intros; try reflexivity. destruct c; reflexivity. Qed.
